@@ -8,6 +8,7 @@ package main
 //   * first use: thousands of fresh zero-value Feeds, each with first Send || first Subscribe || another first Send ||
 //     another first Subscribe, released together by a start gate (lazy initialisation: once.Do(init), f.etype);
 //   * fresh SubscriptionScopes with Track || Close || Count || wrapper Unsubscribe;
+//   * fresh TypeMuxes with Subscribe || Post || Unsubscribe || Stop, and a slice of the TypeMux rounds;
 //   * a slice of the ordinary scheduled rounds.
 // A report of the race detector ("WARNING: DATA RACE", exit status 66) is a violation of kind `data-race`; the detail
 // carries the top frames of the first report.  The judgement does not depend on the schedule beyond "the detector saw two
@@ -110,20 +111,34 @@ func runRaceChild(run *hx.Run, hook bool) {
 	budget := time.Duration(*raceBudget) * time.Second
 	rng := hx.NewRng(run.Seed ^ 0x5ace)
 	start := time.Now()
-	nFirst, nScope, nRounds := 0, 0, 0
-	for time.Since(start) < budget*6/10 {
+	nFirst, nScope, nMux, nRounds := 0, 0, 0, 0
+	for time.Since(start) < budget*45/100 {
 		run.Current("race first-use")
 		for i := 0; i < 50; i++ {
 			firstUse(rng)
 			nFirst++
 		}
 	}
-	for time.Since(start) < budget*8/10 {
+	for time.Since(start) < budget*6/10 {
 		run.Current("race scopes")
 		for i := 0; i < 50; i++ {
 			scopeUse(rng)
 			nScope++
 		}
+	}
+	for time.Since(start) < budget*8/10 {
+		run.Current("race mux")
+		for i := 0; i < 50; i++ {
+			muxUse(rng)
+			nMux++
+		}
+	}
+	for round := 1; time.Since(start) < budget*9/10; round++ {
+		run.Current(fmt.Sprintf("race mux round %d", round))
+		if res := runMuxRound(run.Seed, round, hx.NewRng(run.Seed*7000003+uint64(round))); res.hang {
+			break
+		}
+		nRounds++
 	}
 	for round := 1; time.Since(start) < budget; round++ {
 		run.Current(fmt.Sprintf("race round %d", round))
@@ -134,7 +149,7 @@ func runRaceChild(run *hx.Run, hook bool) {
 		}
 	}
 	curSched.Store(nil)
-	fmt.Printf("racechild: first-use feeds=%d scopes=%d rounds=%d\n", nFirst, nScope, nRounds)
+	fmt.Printf("racechild: first-use feeds=%d scopes=%d muxes=%d rounds=%d\n", nFirst, nScope, nMux, nRounds)
 }
 
 var raceAddr = regexp.MustCompile(`0x[0-9a-f]+|goroutine \d+|\+0x[0-9a-f]+|\[[a-z ]+\]`)
